@@ -11,6 +11,7 @@ Exit codes: 0 property held on everything explored (possibly with KNOWN-FINDING 
 import hashlib
 import json
 import os
+import shutil
 import re
 import subprocess
 import sys
@@ -25,6 +26,9 @@ from checks import CHECKS  # noqa: E402
 GOENV = dict(os.environ, GOFLAGS="-mod=mod", GOPROXY="off", GOSUMDB="off", GOTOOLCHAIN="local",
              GOLOG_LOG_LEVEL="fatal", CGO_ENABLED="1")
 GO = "go1.26.8"
+# the tree the checks are built from: /repo's working tree. VERIF_REPO points a background sweep
+# (vp run --with-repo) at its own snapshot instead, so that it is not disturbed by edits to /repo.
+REPO = os.path.abspath(os.environ.get("VERIF_REPO", "/repo"))
 NCPU = os.cpu_count() or 4
 
 
@@ -37,6 +41,13 @@ def build(race=True):
     os.makedirs(BUILD, exist_ok=True)
     out = os.path.join(BUILD, "chk.race.test" if race else "chk.norace.test")
     base = [GO, "test", "-c", "-o", out]
+    if REPO != "/repo":
+        alt = os.path.join(BUILD, "alt.mod")
+        mod = open(os.path.join(HARNESS, "go.mod")).read().replace("=> /repo", "=> " + REPO)
+        open(alt, "w").write(mod)
+        shutil.copy(os.path.join(HARNESS, "go.sum"), os.path.join(BUILD, "alt.sum"))
+        base.append("-modfile=" + alt)
+        log(f"[build] using repository tree {REPO}")
     if race:
         base.append("-race")
     t0 = time.time()
@@ -160,9 +171,9 @@ def race_signature(rep):
         tops.append(fr or "?")
         # first frame's file
         files = [ln.strip() for ln in p.splitlines() if ln.strip().startswith("/")]
-        if files and files[0].startswith("/repo/") and "_test.go" not in files[0] and "/testutil/" not in files[0]:
+        if files and files[0].startswith(REPO + "/") and "_test.go" not in files[0] and "/testutil/" not in files[0]:
             inlib = True
-    lib_any = ("/repo/" in rep)
+    lib_any = (REPO + "/" in rep)
     harness_only = all(("verif/harness" in (t or "")) for t in tops)
     scope = "library" if inlib else ("harness" if harness_only else ("via-library" if lib_any else "foreign"))
     return " <-> ".join(sorted(tops)), scope
